@@ -715,8 +715,9 @@ PROPS = {
         "level_prefix": "Partial proof -- contracts discharged without bound on the mechanisms named below, not the whole statement (bounded stand-ins and what is left out are listed): ",
         "units": ["rtypebitmap", "tsig", "rdcompose", "rdparse", "rdbin", "rdnames"],
         "vx_search": {"bin": "c05_search_small_rdata", "crate": "replay", "release": True,
-                      "what": "199 small values of 22 record data types (A, AAAA, MX, SRV, NS, CNAME, PTR, DNAME, SOA, NSEC, RRSIG, DNSKEY, DS, CDS, CDNSKEY, "
-                              "TLSA, SSHFP, OPENPGPKEY, NSEC3PARAM, NSEC3, TXT, HINFO; boundary values, mixed-case names, full 32-octet bitmap "
+                      "what": "317 small values of 34 record data types (A, AAAA, MX, SRV, NS, CNAME, PTR, DNAME, MB, MD, MF, MG, MR, MINFO, RP, NAPTR, SOA, NSEC, "
+                              "RRSIG, DNSKEY, DS, CDS, CDNSKEY, TLSA, SSHFP, OPENPGPKEY, ZONEMD, CAA, IPSECKEY with all four gateway kinds, NSEC3PARAM, "
+                              "NSEC3, TXT, HINFO; boundary values, mixed-case names, full 32-octet bitmap "
                               "windows, 255-octet strings, salts and hashes): rdlen == octets written, parse(compose(x)) == x, canonical form == wire form with "
                               "exactly the listed names lower-cased, and the same through ZoneRecordData -- on the real crate"},
         "kani": [
